@@ -284,3 +284,28 @@ def c02_9(ctx, r):
     from .c01 import c01_7
 
     c01_7(ctx, r)
+
+
+@rule(P, "C02.10", "T8", "a job's blocker set is the model's: read, removal of exactly one name, replacement", min_obligations=5)
+def c02_10(ctx, r):
+    gp = ctx.cls("GenericCommandParameters", "C02.10")
+    rx = _single_return(gp.methods["get_blocking_jobs"])
+    r.check(rx is not None and ctx.src(rx) == "self._model.blocked_by", "get_blocking_jobs returns the model's set (not a copy that removal would miss)", key_of(gp.methods["get_blocking_jobs"], "read"), gp.methods["get_blocking_jobs"].loc(),
+            f"get_blocking_jobs returns `{ctx.src(rx) if rx is not None else None}`")
+    rm = gp.methods["remove_blocking_job"]
+    body = [s for s in rm.node.body if not (isinstance(s, ast.Expr) and isinstance(s.value, ast.Constant))]
+    r.check(len(body) == 1 and ctx.src(body[0]) in ("self._model.blocked_by.remove(name)", "self._model.blocked_by.discard(name)"), "remove_blocking_job removes exactly the named blocker", key_of(rm, "remove"), rm.loc(),
+            f"remove_blocking_job is `{'; '.join(ctx.src(s) for s in body)}`: more (or other) blockers than the completed one disappear", "never started until every job named in its blocked_by list has a recorded outcome")
+    sb = gp.methods["set_blocking_jobs"]
+    body = [s for s in sb.node.body if not (isinstance(s, ast.Expr) and isinstance(s.value, ast.Constant))]
+    r.check(len(body) == 1 and ctx.src(body[0]) == f"self._model.blocked_by = {sb.params[1]}", "set_blocking_jobs replaces the set with its argument", key_of(sb, "set"), sb.loc(), f"set_blocking_jobs is `{'; '.join(ctx.src(s) for s in body)}`")
+    ac = ctx.cls("AsyncCliCommand")
+    for name, want in (("get_blocking_jobs", "return self._job.get_blocking_jobs()"), ("remove_blocking_job", "self._job.remove_blocking_job(name)"), ("set_blocking_jobs", "self._job.set_blocking_jobs(jobs)")):
+        m = ac.methods[name]
+        body = [s for s in m.node.body if not (isinstance(s, ast.Expr) and isinstance(s.value, ast.Constant))]
+        r.check(len(body) == 1 and ctx.src(body[0]) == want, f"AsyncCliCommand.{name} delegates to its job", key_of(m, "delegate"), m.loc(), f"AsyncCliCommand.{name} is `{'; '.join(ctx.src(s) for s in body)}`")
+    # serialised blockers are the model's field (what the node reads back)
+    mdl = ctx.cls("GenericCommandParametersModel")
+    r.check("blocked_by" in mdl.ann_fields and "blocked_by" not in ctx.src(mdl.methods["dict"].node), "blocked_by is a model field and is never dropped on output", key_of(mdl.methods["dict"], "blocked_by kept"), mdl.methods["dict"].loc(), "blocked_by can be dropped from the serialised job")
+    hv = mdl.methods.get("handle_blocked_by")
+    r.check(hv is not None and ctx.src([n for n in iter_own(hv.node) if isinstance(n, ast.Return)][0].value).replace(" ", "") == "{str(x)forxinvalue}", "integer blockers are normalised to the job-name strings", key_of(hv, "normalise") if hv else "handle_blocked_by", hv.loc() if hv else mdl.module.relpath + ":1", "blocked_by normalisation changed")
